@@ -12,6 +12,7 @@ import torch
 import torch.nn as nn
 from plinio.methods.supernet.supernet import SuperNet
 from plinio.methods.supernet.nn.module import SuperNetModule
+from plinio.cost import params, ops
 
 
 class OneBlock(nn.Module):
@@ -115,6 +116,44 @@ def h_import(H, net, training):
     H.ensure('import:user-model-still-computes-the-original-function', H.eq(y0, y2))
 
 
+def _metric_on(H, exported, per_invocation):
+    """parameter count (once per layer) / operation count (once per invocation, x output length) of a plain exported network"""
+    tot = 0
+    seen = []
+    mods = dict(exported.named_modules())
+    for n in exported.graph.nodes:
+        if n.op != 'call_module':
+            continue
+        m = mods[str(n.target)]
+        if H.type_name(m) != 'Conv1d' or (not per_invocation and str(n.target) in seen):
+            continue
+        seen.append(str(n.target))
+        c = m.out_channels * (m.in_channels * m.kernel_size[0] + (1 if m.bias is not None else 0))
+        tot = tot + (c * SHAPE[2] if per_invocation else c)
+    return tot
+
+
+def h_cost_vs_exported(H, net):
+    """C06, last clause: under hard selection the cost of the SuperNet equals the same metric computed on the exported network
+    (parameters: every layer once; operations: every invocation)"""
+    cls, blocks = NETS[net]
+    user = cls()
+    als = _alphas(H, user, blocks)
+    model = SuperNet(user, cost={'params': params, 'ops': ops}, input_example=torch.zeros(*SHAPE), full_cost=True)
+    for al in als:
+        for i in range(len(al)):
+            if H.branch(H.and_(*[H.ge(al[i], a) for a in al])):
+                break
+    model.eval()
+    model(H.tensor('x', SHAPE))                  # the forward pass that samples the (hard) coefficients
+    c_params = H.scalar(model.get_cost('params'))
+    c_ops = H.scalar(model.get_cost('ops'))
+    exported = model.export()
+    H.observe('costs', [c_params, c_ops])
+    H.ensure('cost:parameters-under-hard-selection-equal-the-parameter-count-of-the-exported-network', H.eq(c_params, _metric_on(H, exported, False)))
+    H.ensure('cost:operations-under-hard-selection-equal-the-operation-count-of-the-exported-network', H.eq(c_ops, _metric_on(H, exported, True)))
+
+
 def h_export(H, net, training):
     """C03 / C18: for every value of the selection coefficients export() keeps exactly the arg-max branch of every block, the exported network
     computes the hard-selection function of the SuperNet, layers outside the blocks are the same objects with the same state - whatever mode
@@ -171,6 +210,8 @@ _FUNCS = [_P + 'supernet.py::SuperNet.__init__', _P + 'supernet.py::SuperNet.exp
           _P + 'graph.py::link_combiners_to_branches', _P + 'graph.py::export_graph', _P + 'nn/module.py::SuperNetModule.forward',
           'plinio/graph/annotation.py::clean_up_propagated_shapes', 'plinio/graph/inspection.py::named_leaf_modules']
 HARNESSES = [
+    dict(name='whole-supernet-cost', fn='h_cost_vs_exported', property=['C06'], functions=_FUNCS + [_P + 'supernet.py::SuperNet._get_single_cost', _P + 'nn/combiner.py::SuperNetCombiner.get_cost'],
+         quick=[dict(net=n) for n in NETS], thorough=[dict(net=n) for n in NETS], timeout=120),
     dict(name='whole-supernet-import', fn='h_import', property=['C07'], functions=_FUNCS,
          quick=[dict(net=n, training=t) for n, t in (('one-block', True), ('twice', True), ('two-blocks', False))],
          thorough=[dict(net=n, training=t) for n in NETS for t in _B], timeout=120),
